@@ -10,6 +10,7 @@ Section Pac.
   Hypothesis Hshape : parse_proxy_trims = true /\ parse_proxy_has_direct_literal = true /\
                       parse_proxy_direct_literal = b "DIRECT" /\ parse_proxy_cut_sep = [32].
   Hypothesis Hport : parse_proxy_validates_port = true.
+  Hypothesis Hhost : parse_proxy_validates_host = true.
   Hypothesis Hfirst : first_empty_is_direct = true /\ first_entry_sep = [59].
   Hypothesis Hurl : url_nil_mode = b "DIRECT" /\ url_remap = [(b "PROXY", b "HTTP")] /\ url_scheme_lower = true.
   Hypothesis Hunsup : pac_unsupported_modes = [b "SOCKS"; b "SOCKS4"].
@@ -58,17 +59,19 @@ Section Pac.
             | Some (kw, hp) =>
                 match split_host_port hp with
                 | None => HFail
-                | Some (h, p) => if negb (valid_port16 p) then HFail else keyword_hop kw h p
+                | Some (h, p) => if negb (valid_host h) then HFail
+                                 else if negb (valid_port16 p) then HFail else keyword_hop kw h p
                 end
             end).
   Proof.
-    unfold parse_proxy. destruct Hshape as (Ht & Hd & Hl & Hc). rewrite Ht, Hd, Hl, Hc, Hport.
+    unfold parse_proxy. destruct Hshape as (Ht & Hd & Hl & Hc). rewrite Ht, Hd, Hl, Hc, Hport, Hhost.
     cbv zeta. set (e := trim_space x).
     destruct (is_empty e) eqn:Ee; [cbn [orb]; rewrite entry_result_no_proxy; reflexivity|].
     cbn [orb andb]. destruct (str_eqb e (b "DIRECT")) eqn:Ed; [rewrite entry_result_no_proxy; reflexivity|].
     change (sep_byte [32]) with 32.
     destruct (cut_byte 32 e) as [[kw hp]|]; [|reflexivity].
     destruct (split_host_port hp) as [[h p]|]; [|reflexivity].
+    destruct (valid_host h); cbn [negb andb]; [|reflexivity].
     destruct (valid_port16 p); cbn [negb]; [|reflexivity].
     apply mode_table.
   Qed.
